@@ -78,7 +78,7 @@ inductive SLabel
 def Sem.setPhase (s : Sem) (c : Nat) (p : Phase) : Sem := { s with phase := fun c' => if c' = c then p else s.phase c' }
 
 def sguard (s : Sem) : SLabel → Bool
-  | .call c _ => c == s.ncallers
+  | .call c _ => s.phase c == .done && !s.inBody.contains c
   | .acquired c => s.phase c == .waiting && s.value > 0
   | .acqTimeout c => s.phase c == .waiting
   | .cancelWaiting c => s.phase c == .waiting
@@ -88,7 +88,7 @@ def sguard (s : Sem) : SLabel → Bool
     !s.inBody.contains c && (s.phase c == .holding || s.phase c == .laxEntered) && released == (s.phase c == .holding)
 
 def sapply (s : Sem) : SLabel → Sem
-  | .call c lax => { (s.setPhase c .waiting) with lax := (fun c' => if c' = c then lax else s.lax c'), ncallers := s.ncallers + 1 }
+  | .call c lax => { (s.setPhase c .waiting) with lax := (fun c' => if c' = c then lax else s.lax c'), ncallers := max s.ncallers (c + 1) }
   | .acquired c => { (s.setPhase c .holding) with value := s.value - 1 }
   | .acqTimeout c => if s.lax c then s.setPhase c .laxEntered else s.setPhase c .done
   | .cancelWaiting c => s.setPhase c .done
